@@ -19,6 +19,8 @@ func Finalize() {
 	for _, d := range Drivers() {
 		names = append(names, d.Name())
 	}
+	registerC16(names)
+	registerC18(names)
 	required := []string{"first_installation_succeeded", "reinstall_attempt"}
 	for _, n := range names {
 		required = append(required, "reinstall_attempt:"+n) // every router with a driver must be exercised in every batch
@@ -39,7 +41,7 @@ func Finalize() {
 			for i := 0; i < 4+rng.Intn(8); i++ {
 				switch rng.Intn(6) {
 				case 0, 1, 2:
-					steps = append(steps, kernel.Step{Op: "genesis", A: []int64{int64(rng.Intn(3)), int64(rng.Intn(2))}})
+					steps = append(steps, kernel.Step{Op: "genesis", A: []int64{int64(rng.Intn(4)), int64(rng.Intn(2))}})
 				case 3, 4:
 					steps = append(steps, kernel.Step{Op: "headers", A: []int64{int64(1 + rng.Intn(3))}})
 				case 5:
@@ -91,7 +93,7 @@ func execC19(run *kernel.Run, d Driver) {
 		run.Steps++
 		switch st.Op {
 		case "genesis":
-			tx := c.GenesisTx(int(st.Arg(0)) % 3)
+			tx := c.GenesisTx(int(st.Arg(0)) % 4)
 			if tx == nil {
 				continue
 			}
@@ -100,8 +102,8 @@ func execC19(run *kernel.Run, d Driver) {
 				return
 			}
 			t := tr[0]
-			run.Logf("%s genesis variant=%d ok=%v writes=%d", d.Name(), st.Arg(0)%3, t.OK, len(t.Writes))
-			sig = append(sig, byte(st.Arg(0)%3), b2b(t.OK))
+			run.Logf("%s genesis variant=%d ok=%v writes=%d", d.Name(), st.Arg(0)%4, t.OK, len(t.Writes))
+			sig = append(sig, byte(st.Arg(0)%4), b2b(t.OK))
 			if !installed {
 				if t.OK {
 					installed = true
@@ -116,11 +118,11 @@ func execC19(run *kernel.Run, d Driver) {
 			run.Probe("reinstall_attempt")
 			run.Probe("reinstall_attempt:" + d.Name())
 			if w := touches(t); len(w) > 0 {
-				run.Fail("C19", "reinstall-changed-state:"+d.Name(), "%s: re-installation attempt (variant %d) wrote light-client keys %v", d.Name(), st.Arg(0)%3, w)
+				run.Fail("C19", "reinstall-changed-state:"+d.Name(), "%s: re-installation attempt (variant %d) wrote light-client keys %v", d.Name(), st.Arg(0)%4, w)
 				return
 			}
 			if t.OK {
-				run.Fail("C19", "reinstall-succeeded:"+d.Name(), "%s: a later trust-root installation attempt (variant %d) succeeded", d.Name(), st.Arg(0)%3)
+				run.Fail("C19", "reinstall-succeeded:"+d.Name(), "%s: a later trust-root installation attempt (variant %d) succeeded", d.Name(), st.Arg(0)%4)
 				return
 			}
 		case "headers":
